@@ -198,10 +198,13 @@ fn main() {
             match m.decrypt_the_ring(ring, abort_early) {
                 Ok((mut dm, _)) => { let mut o = Vec::new(); match dm.read_to_end(&mut o) { Ok(_) if o == plain => "F0".into(), Ok(_) => "WRONG-PLAINTEXT".into(), Err(_) => "Fx".into() } }
                 Err(pgp::errors::Error::MissingKey) => "M".into(),
-                Err(e) => { let s = e.to_string(); if s.contains("inconsistent session keys") { "C".into() } else { "Fx".into() } }
+                // (the wording of the error only feeds the coverage class, never the verdict)
+                Err(e) => { let s = e.to_string(); if s.contains("inconsistent session keys") { "Fx conflict".into() } else { "Fx".into() } }
             }
         });
         let imp = match r { Ok(s) => s, Err(p) => p };
+        let said_conflict = imp == "Fx conflict";
+        let imp = if said_conflict { "Fx".to_string() } else { imp };
         // ---- the oracle table for the model
         let openable = |i: usize| -> bool { match &pool[i].locked_with { None => true, Some(l) => key_pw_strs.contains(&l.as_str()) } };
         let pk_spec: Vec<String> = esks.iter().filter_map(|e| if let E::Pk { to, named, k } = e {
@@ -218,7 +221,7 @@ fn main() {
         let rp = vec!["ring".to_string(), case.to_string(), hx(&msg[..msg.len().min(2500)]), names.join("+"), format!("{:?}", key_pw_strs)];
         let never_wrong_plaintext = imp != "WRONG-PLAINTEXT" && !imp.starts_with("PANIC");
         if judged_by_model {
-            cx.out.case("decide", &args, &rp, &imp, Some(never_wrong_plaintext), &format!("{}-{}", if c.v2 { "seipd2" } else { "seipd1" }, if abort_early { "abort-early" } else { "cross-check" }));
+            cx.out.case("decide", &args, &rp, &imp, Some(never_wrong_plaintext), &format!("{}-{}{}", if c.v2 { "seipd2" } else { "seipd1" }, if abort_early { "abort-early" } else { "cross-check" }, if said_conflict { "-conflict-reported" } else { "" }));
         } else {
             // unauthenticated SKESK v4 with a foreign password: it may yield a bogus session key; then an error, never plaintext that is not the message
             cx.out.case("", &[], &rp, &imp, Some(never_wrong_plaintext), "seipd1-foreign-password");
